@@ -148,27 +148,70 @@ def nanfill(chk, prog):
                         "the rows kept in the output were copied from the array before its sign jumps were removed, while the interpolants are built from the corrected neighbours: jumps reappear around filled gaps",
                         line=call.lineno)
     # only NaN intervals are written: the loop iterates over get_nan_intervals(self.array)
-    txt = ast.unparse(f.node)
-    if "nan_intervals = get_nan_intervals(self.array)" in txt and "for interval in nan_intervals" in txt:
+    def is_gni(c):
+        return isinstance(c, ast.Call) and ast.unparse(c.func).split(".")[-1] == "get_nan_intervals"
+    bound = {t.id for n in ast.walk(f.node) if isinstance(n, ast.Assign) and is_gni(n.value) for t in n.targets if isinstance(t, ast.Name)}
+    fill_loops = [n for n in ast.walk(f.node) if isinstance(n, ast.For) and (is_gni(n.iter) or (isinstance(n.iter, ast.Name) and n.iter.id in bound))]
+    if fill_loops:
         chk.record("NANFILL.loop", f.ref, "only the intervals returned by get_nan_intervals are written")
     else:
         chk.error("NANFILL: loop over get_nan_intervals(self.array) not recognised")
     g = prog.func(CORE + "::get_nan_intervals")
     chk.touch(g)
-    rets = [r for r in ast.walk(g.node) if isinstance(r, ast.Return) and isinstance(r.value, ast.ListComp)]
-    ok = False
-    for r in rets:
-        e = r.value.elt
-        if isinstance(e, ast.Tuple) and len(e.elts) == 2 and ast.unparse(e.elts[0]).endswith("[0]") and ast.unparse(e.elts[1]).endswith("[-1]"):
-            ok = True
-    split_ok = "np.where(np.diff(nan_indices) > 1)[0] + 1" in ast.unparse(g.node)
-    if ok and split_ok:
+    # value-number form of the split:  np.split(I, 1 + np.where(np.diff(I) > 1)[0])  with  I = np.where(<nan mask>)[0]
+    import re
+
+    splits = []
+
+    def on_call(fa, node, st):
+        if fa.np_name(node.func) == "split" and len(node.args) == 2:
+            splits.append((node, fa.vn(node.args[0], st), fa.vn(node.args[1], st), fa.vn(node, st)))
+    rets = []
+
+    class R(Facts):
+        def s_Return(self2, s_, st):
+            if isinstance(s_.value, ast.ListComp) and len(s_.value.generators) == 1:
+                rets.append((s_, self2.vn(s_.value.generators[0].iter, st)))
+            return super().s_Return(s_, st)
+    R(g, prog, callbacks={"call": on_call}).analyse()
+    if len(splits) != 1 or not rets:
+        chk.error("NANFILL.intervals: get_nan_intervals is not in the recognised split-on-gaps form (cannot decide): %d np.split calls, %d list-comprehension returns" % (len(splits), len(rets)))
+        return
+    node, a_vn, b_vn, s_vn = splits[0]
+    why = None
+    if not (a_vn.startswith("np.where(") and a_vn.endswith(")[c:0]")):
+        chk.error("NANFILL.intervals: the array split by get_nan_intervals is not np.where(<mask>)[0] (cannot decide): " + a_vn[:80])
+        return
+    m = re.fullmatch(r"(?:Add\(c:(-?\d+),)?np\.where\(cmp\(np\.diff\((.*)\);(\w+) c:(-?\d+)\)\)\[c:0\]\)?", b_vn)
+    if not m or m.group(2) != a_vn:
+        chk.error("NANFILL.intervals: split points of get_nan_intervals are not of the form where(diff(I) > 1)[0] + 1 (cannot decide): " + b_vn[:100])
+        return
+    shift, op, thr = int(m.group(1) or 0), m.group(3), int(m.group(4))
+    if shift != 1:
+        why = "split points are where(diff(I) ...)[0] + %d, not + 1: each run is cut one row off its true end" % shift
+    elif (op, thr) not in (("Gt", 1), ("GtE", 2), ("NotEq", 1)):
+        why = "runs are split where diff(I) %s %d, not where the index gap exceeds 1" % (op, thr)
+    for r_, it_vn in rets:
+        gen = r_.value.generators[0]
+        e = r_.value.elt
+        if it_vn != s_vn:
+            why = why or "the returned intervals iterate over something other than the split runs"
+        tname = gen.target.id if isinstance(gen.target, ast.Name) else None
+
+        def idx(x):
+            if isinstance(x, ast.Subscript) and isinstance(x.value, ast.Name) and x.value.id == tname:
+                try:
+                    return ast.literal_eval(x.slice)
+                except Exception:
+                    return None
+            return None
+        if not (isinstance(e, ast.Tuple) and len(e.elts) == 2 and idx(e.elts[0]) == 0 and idx(e.elts[1]) == -1):
+            why = why or "each interval is `%s`, not (run[0], run[-1])" % ast.unparse(e)
+    if why is None:
         chk.record("NANFILL.intervals", g.ref, "returns (first, last) of each run of consecutive NaN rows (split where the index gap exceeds 1)")
-    elif rets and not ok:
-        chk.record("NANFILL.intervals", g.ref, "returns inclusive (first, last) per run", verdict="VIOLATION")
-        chk.finding("NANFILL.intervals", CORE, "get_nan_intervals", "interval construction", "get_nan_intervals builds its (first, last) pairs from something other than interval[0], interval[-1]", line=g.node.lineno)
     else:
-        chk.error("NANFILL.intervals: get_nan_intervals is not in the recognised split-on-gaps form (cannot decide)")
+        chk.record("NANFILL.intervals", g.ref, "returns inclusive (first, last) per run", verdict="VIOLATION", detail=why)
+        chk.finding("NANFILL.intervals", CORE, "get_nan_intervals", "interval construction", why, line=node.lineno)
 
 
 def jumps_twin(chk, prog):
